@@ -47,6 +47,19 @@ Definition pending_api_exact (p : pool) : Prop :=
   (forall a flat, In (a, flat) (fst (pending_view p)) -> flat = sort_nonce (held (pending p) a)) /\
   (forall a, held (pending p) a <> [] -> exists flat, In (a, flat) (fst (pending_view p))).
 
+(* Clause 7 (limits), exactly as truncatePending / truncateQueue guarantee
+   it at the end of every runReorg critical section: either the pending total is
+   within GlobalSlots or no remote account holds more than AccountSlots (its
+   minimum allowance); either the queued total is within GlobalQueue or no
+   remote account queues anything.  Local accounts are exempt from both. *)
+Definition queue_len (p : pool) (a : N) : N :=
+  match aget (queue p) a with Some l => l_len l | None => 0 end.
+Definition limits_respected (c : config) (p : pool) : Prop :=
+  (pending_count p <= global_slots c \/
+   forall a, is_local p a = false -> pend_len p a <= account_slots c) /\
+  (queued_count p <= global_queue c \/
+   forall a, is_local p a = false -> queue_len p a = 0).
+
 (* the history used as witness of the listed finding and in the non-vacuity
    examples: head A mined nonces 3,4 of account 0; the pool takes 5,6,7 (and
    two transactions of account 1, one of them gapped); then the chain switches
